@@ -148,6 +148,15 @@ def build_harness(race=False):
         sync_gosum()
         env = dict(GOENV)
         cmd = ["go", "build", "-tags", "verif", "-o", out]
+        if REPO != "/repo":
+            # VERIF_REPO (background runs on a snapshot of the repository): same module file with the replace
+            # directives pointing at the snapshot
+            alt = os.path.join(WORK, "harness_mod")
+            os.makedirs(alt, exist_ok=True)
+            mod = open(os.path.join(HARNESS_DIR, "go.mod")).read().replace("=> /repo/", "=> " + REPO.rstrip("/") + "/")
+            write_if_changed(os.path.join(alt, "go.mod"), mod)
+            shutil.copyfile(os.path.join(HARNESS_DIR, "go.sum"), os.path.join(alt, "go.sum"))
+            cmd.append("-modfile=" + os.path.join(alt, "go.mod"))
         if race:
             env["CGO_ENABLED"] = "1"
             cmd.insert(2, "-race")
